@@ -134,6 +134,14 @@ class World(object):
         nested.__name__ = 'on_' + real['e1']
         self.funcs[('N', 'e1')] = nested
 
+        import functools
+
+        def _pbase(tag, sender, *a, **k):
+            me.log.append(('P', sender, a, k, 'e1'))
+            return ('ret', 'P')
+        # a callback without a __name__ (functools.partial): it can only be connected with an explicit event
+        self.funcs[('P', 'e1')] = functools.partial(_pbase, 'tag')
+
         def reemit(sender, *a, **k):
             # reentrancy: a callback of e1 that emits e1 again on the same emitter (once: the inner dispatch reaches it too)
             me.log.append(('M', sender, a, k, 'e1'))
@@ -165,7 +173,7 @@ class World(object):
         self.funcs[('U', 'e1')] = unconnector
 
     def cb(self, tok, event):
-        if tok in ('A', 'R', 'N', 'K', 'U', 'M'):
+        if tok in ('A', 'R', 'N', 'K', 'U', 'M', 'P'):
             return self.funcs[(tok, event)], None
         return getattr(self.owners[tok], 'on_' + self.real[event]), tok
 
@@ -223,6 +231,19 @@ class World(object):
                 return None   # guard: not inside a silent() block
             call(self.f['set_silent'], op[1])
             self.ref.set_silent(op[1])
+        elif k == 'prepare_deco':
+            # deco = connect(event=...) is kept in a variable and applied to a function later (other operations in between)
+            self.deco = (call(lambda: self.f['connect'](event=self.real['e1'])), ('A', 'e1'))
+        elif k == 'apply_deco':
+            if getattr(self, 'deco', None) is not None and self.deco[0].ok:
+                f_, _ = self.cb(*self.deco[1])
+                r = call(self.deco[0].value, f_)
+                if not r.ok:
+                    return 'applying a stored connect(...) decorator raised %r' % r.exc
+                self.handles = getattr(self, 'handles', {})
+                self.handles[self.deco[1]] = r.value
+                self.ref.connect('e1', None, self.deco[1], None, False)
+                self.deco = None
         elif k == 'prepare':
             self.prepared = self.f['silent']()        # the context object is created now and entered later (state may change in between)
         elif k == 'enter':
@@ -320,7 +341,7 @@ SMALL = CONNECTS_SMALL + [
     ('emit', 'e1', 'S1', True, (), {}), ('emit', 'e2', 'S1', False, (), {})]
 SMALL_M = [('connect', 'A', 'e1', 'name', None, False), ('connect', 'A', 'e1', 'explicit', 'S1', False), ('connect', 'B', 'e1', 'explicit', 'S2', True),
            ('connect', 'M', 'e1', 'explicit', None, False), ('connect', 'M', 'e1', 'explicit', 'S1', True), ('unconnect', [('cb', ('A', 'e1'))]),
-           ('set_silent', True), ('set_silent', False),
+           ('set_silent', True), ('set_silent', False), ('connect', 'P', 'e1', 'explicit', None, False), ('prepare_deco',), ('apply_deco',), ('reset',),
            ('emit', 'e1', 'S1', False, (), {}), ('emit', 'e1', None, False, (3,), {}), ('emit', 'e1', 'S2', True, (), {}), ('emit', 'e1', None, True, (), {})]
 PROBES = [('emit', 'e1', 'S1', False, (7,), {'x': 1}), ('emit', 'e1', 'S2', False, (), {}),
           ('emit', 'e1', 'S1', True, (), {}), ('emit', 'e2', 'S2', False, (), {})]
@@ -345,6 +366,8 @@ def run_shard(desc, ctx):
     # a callback that emits the event it is handling; emits without a sender object (every history of depth <= 4 over a small alphabet)
     for depth in range(1, 5):
         for seq in itertools.product(range(len(SMALL_M)), repeat=depth):
+            if depth == 4 and (seq[0] * 7 + seq[1] * 3 + seq[2] + seq[3]) % 3:
+                continue          # (depth 4: every third history)
             idx += 1
             if idx % ns == sh:
                 run_case({'kind': 'dispatch', 'ops': [SMALL_M[i] for i in seq], 'global': False, 'names': idx // ns}, ctx)
